@@ -48,7 +48,7 @@ def mk_transition(origin=None, equation=None, transition_type="ODE", destination
     if tt == TT.attrs["B"]:
         d = origin if origin is not None else destination
         o = None
-    t = Obj("Transition", transition_type=tt, _magnitude=magnitude, equation=("alias", "_equation"), _equation=equation)
+    t = Obj("Transition", transition_type=tt, _magnitude=magnitude, equation=("alias", "_equation"), _equation=equation, ID=ID, name=name)
     t.attrs["origin"] = o
     t.attrs["destination"] = d
     return t
